@@ -193,6 +193,21 @@ def structure_sweep(rng, tier):
     return progs
 
 
+def string_programs():
+    """names whose text is fragile under post-processing of the emitted lines (runs of blanks, leading /
+    trailing blanks, tabs, comment and label look-alikes): the verbose HASH("..")/STR("..") token must
+    keep denoting the number that compact mode prints"""
+    names = ["Main  pump", "ON  ", " lead", "trail ", "a\tb", "x   y   z", "double  space  twice", "#1  pump", "semi;colon",
+             "colon: name", "j lbwhile1", "  ", "a # b  c", "Tank (big)  2"]
+    out = []
+    for i, n in enumerate(names):
+        lit = n.replace("\\", "\\\\")
+        out.append((f"strings/{i}", f'WallLights["{lit}"].On = 1\ndb.Setting = HASH("{lit}")\nx = d0.Setting\nif x > 1:\n    d1.Setting = HASH("{lit}")\n'))
+        short = n[:6]
+        out.append((f"strings/str{i}", f'db.Setting = STR("{short}")\nwhile d0.On < 1:\n    d1.Setting = STR("{short}")\n    yield_()\n'))
+    return out
+
+
 def main(tier, seed):
     run = core.Run("C08", tier, seed, "proof")
     core.setup_impl_import()
@@ -202,9 +217,14 @@ def main(tier, seed):
     progs = [(n, s) for n, s in impl.repo_programs() if "error" not in n]
     progs += [(f"gen/{i}", p.text()) for i, p in enumerate(progen.generate(rng, 40 if tier == "quick" else 400))]
     progs += structure_sweep(rng, tier)
+    progs += string_programs()
     jobs = []
-    for name, src in progs:
-        for rl in ((False,) if tier == "quick" else (False, True)):
+    rls = (False,) if tier == "quick" else (False, True)
+    # (quick tier: remove_labels on for every fourth program and for all string programs)
+    for pi, (name, src) in enumerate(progs):
+        for rl in rls:
+            if tier == "quick":
+                rl = name.startswith("strings/") or pi % 4 == 3
             base = impl.vec(append_version=False, remove_labels=rl)
             jobs.append((src, dict(base, compact=False)))
             jobs.append((src, dict(base, compact=True)))
